@@ -224,3 +224,10 @@ def reset_world(entropy_seed=0):
         if k not in PRISTINE_FLAGS:
             del F.flags[k]
     F.flags.update(PRISTINE_FLAGS)
+    # runs of one batch share a process: leave no plugin of an earlier run behind
+    for scope in ('signature_extensions', 'check_template'):
+        try:
+            while F._plugins.get(scope):
+                F.remove_plugin(scope, F._plugins[scope][0])
+        except Exception:
+            pass
